@@ -104,11 +104,26 @@ def authFirst (auth : H) : List Ev → Bool
   | .use recv h :: rest => recv = "engine" && (h = auth || authFirst auth rest)
   | _ => false
 
+/-- the handlers `Use`d ahead of the auth middleware -/
+def preAuth (auth : H) : List Ev → List H
+  | .use _ h :: rest => if h = auth then [] else h :: preAuth auth rest
+  | _ => []
+
+/-- Middleware that may be `Use`d ahead of the auth middleware: handlers that only observe —
+they call `c.Next()` unconditionally, never write a response before it and never hand the
+request to anything else.  `gin.CustomRecoveryWithWriter` only installs a deferred `recover`.
+(That these expressions behave so is part of the trusted base; the `auth` engine checks it on
+the real servers: a rejected request gets 401 and reaches no handler, upstream or peer.)
+Anything else ahead of `Use(auth)` — in particular a middleware that can answer or forward a
+request, like admin's `forwardInterceptor` — breaks `C09_chain_*`. -/
+def passiveHandlers : List H := ["gin.CustomRecoveryWithWriter()"]
+
 /-- the same on a guarded table: the auth `Use` is under exactly the guard `ga`, everything
-before it is an engine-level `Use` (under any guard) of another handler -/
+before it is an engine-level `Use` (under any guard) of a handler of `passiveHandlers` -/
 def authFirstG (auth : H) (ga : String) : List GEv → Bool
   | ⟨.use recv h, gs⟩ :: rest =>
-    recv = "engine" && ((h = auth && gs = [ga]) || (h ≠ auth && authFirstG auth ga rest))
+    recv = "engine" && ((h = auth && gs = [ga]) ||
+      (h ≠ auth && passiveHandlers.contains h && authFirstG auth ga rest))
   | _ => false
 
 /-! ## Extracted tables -/
